@@ -348,3 +348,7 @@ def check(run):
     # the length of a string literal passed as a view is the number of its bytes (shared with C09.R7)
     from props import c09
     c09.r7_string_bytes(run, F)
+    # `|x[0]|` in a callee is read off the parameter's type: it is the caller's row length only if argument and parameter
+    # agree in every inner dimension, which the coercions decide with ValueType::equals (shared with C07.R5)
+    from props import c07
+    c07.r5c_equals_structural(run, F)
